@@ -440,12 +440,23 @@ func belowLen(in ssa.Instruction, idx ssa.Value, base string) bool {
 	return false
 }
 
-// helperBounded: idx is result #0 of h(…, len(base), …) whose result #1 (a bool) was tested true on this path, and
-// every return of h that can yield true there returns a value proved 0 ≤ v < that length parameter by h's own
-// dominating facts (or yields `v < length` itself as the bool, with 0 ≤ v proved).
+// helperBounded: idx is one result of a two-result helper h whose other result — a bool tested true, or an error
+// tested nil, on this path — reports success, h received len(base) or the list itself, and every return of h that can
+// report success yields a value proved 0 ≤ v < that length by h's own dominating facts (or yields `v < length` itself
+// as the bool, with 0 ≤ v proved), or — two levels — obtains it the same way from a helper of its own.
 func helperBounded(in ssa.Instruction, idx ssa.Value, base string) string {
+	return resultBounded(in, idx, func(a ssa.Value) bool {
+		if lp, isLen := lenOf(a); isLen && lp == base {
+			return true
+		}
+		_, isSlice := a.Type().Underlying().(*types.Slice)
+		return isSlice && path(a) == base
+	}, "len("+base+")", 0)
+}
+
+func resultBounded(in ssa.Instruction, idx ssa.Value, isLen func(a ssa.Value) bool, lenName string, depth int) string {
 	ex, ok := idx.(*ssa.Extract)
-	if !ok || ex.Index != 0 {
+	if !ok || ex.Index > 1 {
 		return ""
 	}
 	call, ok := ex.Tuple.(*ssa.Call)
@@ -456,49 +467,80 @@ func helperBounded(in ssa.Instruction, idx ssa.Value, base string) string {
 	if h == nil || len(h.Blocks) == 0 || h.Signature.Results().Len() != 2 {
 		return ""
 	}
-	if b, isB := h.Signature.Results().At(1).Type().Underlying().(*types.Basic); !isB || b.Kind() != types.Bool {
+	k, m := ex.Index, 1-ex.Index
+	markBool := false
+	if b, isB := h.Signature.Results().At(m).Type().Underlying().(*types.Basic); isB && b.Kind() == types.Bool {
+		markBool = true
+	} else if !isNillable(h.Signature.Results().At(m).Type()) {
 		return ""
 	}
-	// the bool result was tested true
+	// success was established on this path
 	tested := false
 	for _, ec := range factsAt(in) {
-		if e2, isE := ec.Cond.(*ssa.Extract); isE && e2.Tuple == ex.Tuple && e2.Index == 1 && ec.Pol {
-			tested = true
+		if markBool {
+			if e2, isE := ec.Cond.(*ssa.Extract); isE && e2.Tuple == ex.Tuple && e2.Index == m && ec.Pol {
+				tested = true
+			}
+			continue
+		}
+		if bo, isB := ec.Cond.(*ssa.BinOp); isB && isNilConst(bo.Y) {
+			if e2, isE := bo.X.(*ssa.Extract); isE && e2.Tuple == ex.Tuple && e2.Index == m {
+				if (bo.Op == token.EQL && ec.Pol) || (bo.Op == token.NEQ && !ec.Pol) {
+					tested = true
+				}
+			}
 		}
 	}
 	if !tested {
 		return ""
 	}
-	// which parameter receives len(base)
+	// which parameter receives the length (an int) or the list
 	pj := -1
-	for k, a := range call.Call.Args {
-		if lp, isLen := lenOf(a); isLen && lp == base && k < len(h.Params) {
-			pj = k
+	for j, a := range call.Call.Args {
+		if isLen(a) && j < len(h.Params) {
+			pj = j
 		}
 	}
 	if pj < 0 {
 		return ""
 	}
 	lenParam := h.Params[pj]
-	okAll, n := true, 0
+	_, listParam := lenParam.Type().Underlying().(*types.Slice)
+	okAll, n, via := true, 0, ""
 	allInstrs(h, func(i2 ssa.Instruction) {
 		ret, isR := i2.(*ssa.Return)
 		if !isR || len(ret.Results) != 2 {
 			return
 		}
-		if c, isC := ret.Results[1].(*ssa.Const); isC && c.Value != nil && !constant.BoolVal(c.Value) {
-			return // (…, false): the caller leaves
+		mv := ret.Results[m]
+		if markBool {
+			if c, isC := mv.(*ssa.Const); isC && c.Value != nil && !constant.BoolVal(c.Value) {
+				return // (…, false): the caller leaves
+			}
+		} else if !isNilConst(mv) {
+			if _, isCall := mv.(*ssa.Call); isCall {
+				return // a freshly built error: the caller leaves
+			}
+			for _, ec := range factsAt(ret) {
+				if bo, isB := ec.Cond.(*ssa.BinOp); isB && isNilConst(bo.Y) && bo.X == mv {
+					if (bo.Op == token.NEQ && ec.Pol) || (bo.Op == token.EQL && !ec.Pol) {
+						return // the callee's own error handed on
+					}
+				}
+			}
 		}
 		n++
-		v := ret.Results[0]
+		v := ret.Results[k]
 		upper := false
-		if bo, isB := ret.Results[1].(*ssa.BinOp); isB && bo.Op == token.LSS && bo.X == v && bo.Y == ssa.Value(lenParam) {
-			upper = true
-		}
-		if c, isC := ret.Results[1].(*ssa.Const); isC && c.Value != nil && constant.BoolVal(c.Value) {
+		if listParam {
+			upper = belowLen(ret, v, lenParam.Name())
+		} else {
+			if bo, isB := mv.(*ssa.BinOp); isB && markBool && bo.Op == token.LSS && bo.X == v && bo.Y == ssa.Value(lenParam) {
+				upper = true
+			}
 			for _, ec := range factsAt(ret) {
 				bo, isB := ec.Cond.(*ssa.BinOp)
-				if !isB || bo.X != v || bo.Y != ssa.Value(lenParam) {
+				if !isB || !sameValue(bo.X, v, ret) || bo.Y != ssa.Value(lenParam) {
 					continue
 				}
 				if (bo.Op == token.LSS && ec.Pol) || (bo.Op == token.GEQ && !ec.Pol) {
@@ -506,12 +548,26 @@ func helperBounded(in ssa.Instruction, idx ssa.Value, base string) string {
 				}
 			}
 		}
-		if !upper || !nonNegative(ret, v) {
-			okAll = false
+		if upper && nonNegative(ret, v) {
+			return
 		}
+		if depth < 2 {
+			inner := resultBounded(ret, v, func(a ssa.Value) bool {
+				if a == ssa.Value(lenParam) {
+					return true
+				}
+				lp, isL := lenOf(a)
+				return listParam && isL && lp == lenParam.Name()
+			}, lenParam.Name(), depth+1)
+			if inner != "" {
+				via = "; " + inner
+				return
+			}
+		}
+		okAll = false
 	})
 	if okAll && n > 0 {
-		return fmt.Sprintf("%s(…, len(%s)) reported ok, and its every ok return yields 0 ≤ v < %s by its own guards", h.Name(), base, lenParam.Name())
+		return fmt.Sprintf("%s(…, %s) reported success, and its every successful return yields 0 ≤ v < %s by its own guards%s", h.Name(), lenName, lenParam.Name(), via)
 	}
 	return ""
 }
@@ -564,6 +620,11 @@ func (d *dischargeCtx) dischargeIndex(f *ssa.Function, in ssa.Instruction, base,
 		return "dominated by 0 ≤ index < len(" + bp + ")"
 	}
 	if why := helperBounded(in, idx, bp); why != "" {
+		return why
+	}
+	// both the container and the index are parameters of an unexported function: every call site must have them
+	// in range (the guard was left with the callers)
+	if why := d.callersBound(f, in, base, idx); why != "" {
 		return why
 	}
 	if nonNegative(in, idx) {
@@ -1353,4 +1414,45 @@ func panicRules(c *Ctx, scope, skip map[*ssa.Function]bool, d *dischargeCtx, s2k
 	}
 	nArg := nilArgRule(c, "PANIC-NIL", list)
 	return counts, nAcc, nNil, nArg
+}
+
+// callersBound: base and idx are parameters of the unexported function f, neither is reassigned, and at every call
+// site of f in the module the corresponding arguments satisfy 0 ≤ idx < len(base) by the caller's own facts.
+func (d *dischargeCtx) callersBound(f *ssa.Function, in ssa.Instruction, base, idx ssa.Value) string {
+	pb, ok1 := base.(*ssa.Parameter)
+	pi, ok2 := idx.(*ssa.Parameter)
+	if !ok1 || !ok2 || f.Object() == nil || f.Object().Exported() {
+		return ""
+	}
+	kb, ki := -1, -1
+	for k, p := range f.Params {
+		if p == pb {
+			kb = k
+		}
+		if p == pi {
+			ki = k
+		}
+	}
+	sites := callersOf(d.t)[f]
+	if kb < 0 || ki < 0 || len(sites) == 0 {
+		return ""
+	}
+	for _, cs := range sites {
+		if kb >= len(cs.Call.Args) || ki >= len(cs.Call.Args) {
+			return ""
+		}
+		ab, ai := cs.Call.Args[kb], cs.Call.Args[ki]
+		if !(nonNegative(cs, ai) && belowLen(cs, ai, path(ab))) {
+			return ""
+		}
+	}
+	return fmt.Sprintf("every call of %s (%d) passes an index proved 0 ≤ i < len of the container it passes", f.Name(), len(sites))
+}
+
+func isNillable(t types.Type) bool {
+	switch t.Underlying().(type) {
+	case *types.Pointer, *types.Interface:
+		return true
+	}
+	return false
 }
